@@ -216,7 +216,7 @@ class _MainWithExplicitDestination:
 
     def __call__(self, *args, **kwargs):
         src_basename = self.src_path.name
-        if self.dst_path.exists():
+        if _exists(self.dst_path):
             if self.dst_path.is_dir():
                 _install_into_directory(self.os_services,
                                         self.src_path,
@@ -260,6 +260,16 @@ class EmbryoParser(embryo.InstructionEmbryoParserWoFileSystemLocationInfo[Option
 _DST_PATH_ARGUMENT = syntax_elements.PATH_SYNTAX_ELEMENT.argument
 
 REL_OPT_ARG_CONF = argument_configuration_for_file_creation(_DST_PATH_ARGUMENT.name)
+
+
+def _exists(path: pathlib.Path) -> bool:
+    try:
+        return path.exists()
+    except OSError as ex:
+        # E.g. a file name that is too long
+        raise HardErrorException(
+            failure_details.FailureDetailsRenderer(
+                failure_details.FailureDetails.new_constant_message('{}: {}'.format(ex.strerror, path))))
 
 
 def _install_into_directory(os_services: OsServices,
